@@ -15,6 +15,7 @@ open Mtv Mtv.Rand Driver
     c19.reseed <fn> <k>   create a client, then draw: is the value a function of the clock at creation?
                           → independent | reseeded
     c19.xproc <fn>        draw once in each of two fresh processes → fresh | predictable
+    c19.reader            is crypto/rand.Reader still the standard library's reader → os | replaced
     c19.path <fn>         diagnosis: a path from the function to a math/rand node (not sent by the harness)
 -/
 
